@@ -444,8 +444,21 @@ package fit
 //@ pred inv_unknown(d *decoder) := (d.opts.unknownFields ==> d.unknownFields != nil) && (d.opts.unknownMessages ==> d.unknownMessages != nil)
 //@ pred inv_time(d *decoder) := d.timestamp != 0 ==> d.lastTimeOffset == int32(d.timestamp&31)
 
+//@@ C12: the 32-bit value of the (padded) field bytes in the definition's byte order
+//@ spec tmpU32(d *decoder, dm *defmsg) uint32 := ite(isLE(dm.arch), uint32(d.tmp[0])|uint32(d.tmp[1])<<8|uint32(d.tmp[2])<<16|uint32(d.tmp[3])<<24, uint32(d.tmp[3])|uint32(d.tmp[2])<<8|uint32(d.tmp[1])<<16|uint32(d.tmp[0])<<24)
+//@@ the reference time is usable for local timestamps: absolute (not seconds since power-on)
+//@ pred pure hasRef(ts uint32) := ts != 0 && ts >= 0x10000000
+
 //@ func (d *decoder) parseTimeStamp(dm *defmsg, fieldv reflect.Value, pfield *field)
 //@   props C01 C12
+//@   slow local-ref 60
+//@   ensures [invalid] {C12} old(tmpU32(d, dm)) == 0xFFFFFFFF ==> d.timestamp == old(d.timestamp) && d.lastTimeOffset == old(d.lastTimeOffset) && rvtime(fieldv) == old(rvtime(fieldv))
+//@   ensures [utc] {C12} old(tmpU32(d, dm)) != 0xFFFFFFFF && fkind(pfield.t) == 1 ==> tsec(rvtime(fieldv)) == 631065600+int(old(tmpU32(d, dm))) && tns(rvtime(fieldv)) == 0 && tzoff(rvtime(fieldv)) == 0
+//@   ensures [rebase] {C12} old(tmpU32(d, dm)) != 0xFFFFFFFF && fkind(pfield.t) == 1 && pfield.num == 253 ==> d.timestamp == old(tmpU32(d, dm)) && d.lastTimeOffset == int32(old(tmpU32(d, dm))&0x1F)
+//@   ensures [no-rebase] {C12} !(old(tmpU32(d, dm)) != 0xFFFFFFFF && fkind(pfield.t) == 1 && pfield.num == 253) ==> d.timestamp == old(d.timestamp) && d.lastTimeOffset == old(d.lastTimeOffset)
+//@   ensures [local-noref] {C12} old(tmpU32(d, dm)) != 0xFFFFFFFF && fkind(pfield.t) != 1 && !hasRef(old(d.timestamp)) ==> tsec(rvtime(fieldv)) == 631065600+int(old(tmpU32(d, dm))) && tns(rvtime(fieldv)) == 0 && tzoff(rvtime(fieldv)) == 0
+//@   ensures [local-ref] {C12} old(tmpU32(d, dm)) != 0xFFFFFFFF && fkind(pfield.t) != 1 && hasRef(old(d.timestamp)) ==> tsec(rvtime(fieldv)) == 631065600+int(old(d.timestamp)) && tns(rvtime(fieldv)) == 0 && tzoff(rvtime(fieldv)) == int(old(tmpU32(d, dm)))-int(old(d.timestamp))
+//@   ensures [other-cells] {C12} forall c int :: c != rvcell(fieldv) ==> rvtimeat(fieldv, c) == old(rvtimeat(fieldv, c))
 //@   requires wf_defmsg(dm) && inv_io(d)
 //@   requires [timefield] rvmt(fieldv) < 0xFFF0 && rvttag(fieldv) == typetag[time.Time]()
 //@   requires pfield != nil
@@ -456,6 +469,7 @@ package fit
 
 //@ func (d *decoder) parseFitField(dm *defmsg, dfield fieldDef, fieldv reflect.Value) (err error)
 //@   props C01
+//@   ensures [other-cells] {C12} forall c int :: c != rvcell(fieldv) ==> rvtimeat(fieldv, c) == old(rvtimeat(fieldv, c))
 //@   ensures [not-clean-eof] !iserr(err, errReadSize)
 //@   locals j int
 //@   requires archOK(dm) && rvmt(fieldv) < 0xFFF0
@@ -466,6 +480,7 @@ package fit
 
 //@ func (d *decoder) parseFitFieldArray(dm *defmsg, dfield fieldDef, fieldv reflect.Value) (err error)
 //@   props C01
+//@   ensures [other-cells] {C12} forall c int :: c != rvcell(fieldv) ==> rvtimeat(fieldv, c) == old(rvtimeat(fieldv, c))
 //@   ensures [not-clean-eof] !iserr(err, errReadSize)
 //@   requires archOK(dm) && rvmt(fieldv) < 0xFFF0 && types.KnownIdx(dfield.btype)
 //@   locals j int, k int
@@ -495,10 +510,35 @@ package fit
 
 //@ spec pure recSlot(h byte) byte := slotOf(h, h&0x80 == 0x80)
 
+//@@ C12: a record that carries no explicit timestamp field (253)
+//@ pred no253(dm *defmsg) := forall k in 0..len(dm.fieldDefs) :: dm.fieldDefs[k].num != 253
+//@@ profile facts used by the timestamp clauses: an entry lists its own field number, and no other
+//@@ field of a message shares the struct field of its timestamp
+//@ lemma field_nums(m MesgNum)
+//@   props C12 C15
+//@   reveal tables
+//@   concl forall n byte :: pfound(m, n) ==> pf(m, n).num == n
+//@ lemma ts_field_distinct(m MesgNum)
+//@   props C12 C15
+//@   reveal tables
+//@   concl forall n byte :: pfound(m, n) && pfound(m, 253) && n != 253 ==> pf(m, n).sindex != pf(m, 253).sindex
+//@@ the compressed-timestamp rule: the new reference is the smallest value >= the old one whose low
+//@@ five bits are the header's offset (32-second rollover)
+//@ spec pure advance(ts uint32, last int32, h byte) uint32 := ts + uint32((int32(h&0x1F)-last)&0x1F)
+//@ lemma rollover(ts uint32, h byte)
+//@   props C12
+//@   concl advance(ts, int32(ts&0x1F), h)&0x1F == uint32(h&0x1F) && advance(ts, int32(ts&0x1F), h)-ts < 32
+
 //@ func (d *decoder) parseDataFields(dm *defmsg, knownMsg bool, msgv reflect.Value) (r reflect.Value, err error)
 //@   requires [content] {C02 C04 C12 C13} inv_content(d)
 //@   ensures [content] {C02 C04 C12 C13} inv_content(d)
 //@   requires [def-of-record] {C13} d.bytes.n >= 1 && dm == lastDef(d, int(recSlot(lastByte(d))))
+//@   use field_nums(dm.globalMsgNum)
+//@   use ts_field_distinct(dm.globalMsgNum)
+//@   ensures [ts-kept] {C12} no253(dm) ==> d.timestamp == old(d.timestamp) && d.lastTimeOffset == old(d.lastTimeOffset)
+//@   ensures [ts-cell-kept] {C12} no253(dm) && knownMsg && pfound(dm.globalMsgNum, 253) ==> rvtimeat(msgv, pf(dm.globalMsgNum, 253).sindex) == old(rvtimeat(msgv, pf(dm.globalMsgNum, 253).sindex))
+//@   loop 0 invariant [ts-kept] {C12} (forall k in 0..rangeindex+1 :: dm.fieldDefs[k].num != 253) ==> d.timestamp == old(d.timestamp) && d.lastTimeOffset == old(d.lastTimeOffset)
+//@   loop 0 invariant [ts-cell-kept] {C12} (forall k in 0..rangeindex+1 :: dm.fieldDefs[k].num != 253) && knownMsg && pfound(dm.globalMsgNum, 253) ==> rvtimeat(msgv, pf(dm.globalMsgNum, 253).sindex) == old(rvtimeat(msgv, pf(dm.globalMsgNum, 253).sindex))
 //@   loop 0 invariant [content] {C02 C04 C12 C13} inv_content(d)
 //@   loop 4 invariant [content] {C02 C04 C12 C13} inv_content(d)
 //@   props C01 C10 C11
@@ -537,6 +577,14 @@ package fit
 //@   ensures [content] {C02 C04 C12 C13} inv_content(d)
 //@   requires [header] {C13} d.bytes.n >= 1 && recordHeader == lastByte(d) && compressed == (recordHeader&0x80 == 0x80)
 //@   requires [latest] {C13} defs_latest(d)
+//@   ensures [compressed-state] {C12} compressed && old(d.timestamp) != 0 && old(d.defmsgs[slotOf(recordHeader, compressed)]) != nil && no253(old(d.defmsgs[slotOf(recordHeader, compressed)])) ==>
+//@  |   d.timestamp == advance(old(d.timestamp), old(d.lastTimeOffset), recordHeader) && d.lastTimeOffset == int32(recordHeader&0x1F)
+//@   ensures [compressed-noref] {C12} compressed && old(d.timestamp) == 0 && old(d.defmsgs[slotOf(recordHeader, compressed)]) != nil && no253(old(d.defmsgs[slotOf(recordHeader, compressed)])) ==>
+//@  |   d.timestamp == 0 && d.lastTimeOffset == old(d.lastTimeOffset)
+//@   ensures [normal-state] {C12} !compressed && old(d.defmsgs[slotOf(recordHeader, compressed)]) != nil && no253(old(d.defmsgs[slotOf(recordHeader, compressed)])) ==>
+//@  |   d.timestamp == old(d.timestamp) && d.lastTimeOffset == old(d.lastTimeOffset)
+//@   ensures [compressed-field] {C12} err == nil && compressed && old(d.timestamp) != 0 && no253(old(d.defmsgs[slotOf(recordHeader, compressed)])) && rvvalid(r) && pfound(MesgNum(rvmt(r)), 253) ==>
+//@  |   tsec(rvtimeat(r, pf(MesgNum(rvmt(r)), 253).sindex)) == 631065600+int(advance(old(d.timestamp), old(d.lastTimeOffset), recordHeader)) && tzoff(rvtimeat(r, pf(MesgNum(rvmt(r)), 253).sindex)) == 0
 //@   props C01 C10 C11 C13
 //@   ensures [not-clean-eof] !iserr(err, errReadSize)
 //@   reveal compat
